@@ -8,7 +8,7 @@ import json, os, re, subprocess, sys, glob
 ROOT = os.path.join(os.path.dirname(os.path.abspath(__file__)), "..")
 props = [json.loads(l) for l in open(os.path.join(ROOT, "properties.jsonl"))]
 base = sys.argv[1]
-out = open(os.path.join(ROOT, "seeded", "HARMLESS.tsv"), "a")
+out = open(os.path.join(ROOT, "seeded", os.environ.get("HARMLESS_TSV", "HARMLESS.tsv")), "a")
 for d in sorted(glob.glob(os.path.join(base, "*", "patch.diff")), key=lambda p: int(os.path.basename(os.path.dirname(p)))):
     files = set(re.findall(r"^\+\+\+ b/(\S+)", open(d).read(), re.M))
     ids = [p["id"] for p in props if any(f in p["anchors"]["files"] for f in files)]
